@@ -41,7 +41,16 @@ SQ3 = [(0.0, 1.0, 0.0, 1.0, 0.0, 1.0), (2.0, 5.0, 2.0, 5.0, 10.0, 10.5), (-1.0, 
        (0.0, 1e-4, 0.0, 1e-4, -1.0, 3.0), (0.0, 1e3, 0.0, 1e3, 0.0, 1e-4), (-2.0, -2.0 + 1e-4, -2.0, -2.0 + 1e-4, 2.0, 5.0)]
 WORDS2 = ['', 'x', 'y', 'xx', 'xy', 'yx', 'yy']
 WORDS3 = [''] + list('xyz') + [a + b for a in 'xyz' for b in 'xyz'] + ['xyz']
-QUICK_WORDS3 = ['', 'x', 'y', 'z', 'xx', 'yz', 'zy', 'zz', 'xyz']
+# thorough: every word of length <= 3, and three more boxes / intervals (small side at a large offset, negative large side)
+WORDS2_T = [''.join(w) for n in range(4) for w in itertools.product('xy', repeat=n)]
+WORDS3_T = [''.join(w) for n in range(4) for w in itertools.product('xyz', repeat=n)]
+I1D_T = I1D + [(-1e3, 0.0), (100.0, 100.0 + 1e-4)]
+BOX2_T = BOX2 + [(100.0, 100.0 + 1e-4, -1e3, 0.0)]
+SQ2_T = [(a, b, a, b) for a, b in I1D_T]
+BOX3_T = BOX3 + [(100.0, 100.0 + 1e-4, -1e3, 0.0, 0.5, 1.5)]
+SQ3_T = SQ3 + [(-1e3, 0.0, -1e3, 0.0, 100.0, 100.0 + 1e-4), (100.0, 100.0 + 1e-4, 100.0, 100.0 + 1e-4, -1e3, 0.0)]
+CFG = {'quick': {'w2': WORDS2, 'w3': WORDS3, 'i1': I1D, 'b2': BOX2, 'sq2': SQ2, 'b3': BOX3, 'sq3': SQ3},
+       'thorough': {'w2': WORDS2_T, 'w3': WORDS3_T, 'i1': I1D_T, 'b2': BOX2_T, 'sq2': SQ2_T, 'b3': BOX3_T, 'sq3': SQ3_T}}
 
 
 # ---- exact references ----------------------------------------------------------------------------------------------
@@ -138,6 +147,7 @@ class Acc:
         self.fails = {}
         self.configs = 0
         self.nontrivial = 0
+        self.samples = []
 
     def count(self, clause, n=1):
         self.counts[clause] = self.counts.get(clause, 0) + n
@@ -157,7 +167,7 @@ class Acc:
 
     def result(self):
         return {'base': self.base, 'counts': self.counts, 'maxerr': self.maxerr, 'fails': self.fails,
-                'configs': self.configs, 'nontrivial': self.nontrivial}
+                'configs': self.configs, 'nontrivial': self.nontrivial, 'samples': self.samples}
 
 
 def check_monomials(acc, spec, scheme, sname, variant, word, box, deg, sym=False):
@@ -240,6 +250,10 @@ def check_monomials(acc, spec, scheme, sname, variant, word, box, deg, sym=False
     rel = np.abs(Q - E) / S
     w = int(np.argmax(rel))
     acc.err('monomial:' + sname, rel[w])
+    if len(acc.samples) < 1 and word and deg >= 2:
+        acc.samples.append({'base': spec[0], 'scheme': sname, 'variant': variant, 'mirror_word': word, 'box': list(box),
+                            'monomials_checked': len(idx), 'max_total_degree': deg, 'worst_exponents': idx[w].tolist(),
+                            'value': float(Q[w]), 'exact': float(E[w]), 'rel_err': float(rel[w])})
     nbad = int(np.sum(~(rel <= TOL)))
     if nbad:
         acc.fail(sname, variant, word, 'monomial', rel[w],
@@ -347,7 +361,8 @@ def stated_degree(sname, variant, D):
 
 
 def run_task(task):
-    spec, group, words3 = task
+    spec, group, tier = task
+    cfg = CFG[tier]
     acc = Acc(spec[0])
     try:
         base = build_base(spec)
@@ -374,13 +389,13 @@ def run_task(task):
                 if wrule is None:
                     if deg >= 0:
                         check_weight_sum(acc, spec, s, sname, variant, word)
-                    for a, b in I1D:
+                    for a, b in cfg['i1']:
                         check_monomials(acc, spec, s, sname, variant, word, (a, b), deg)
                 else:
                     if deg >= 0:
                         check_weight_sum(acc, spec, s, sname, variant, word, float(tab_rules.moment('w', 0, wrule)))
                     mirrored = len(word) % 2 == 1
-                    for a, b in I1D:
+                    for a, b in cfg['i1']:
                         acc.configs += 1
                         acc.nontrivial += 1 if deg >= 1 else 0
                         for k in range(deg + 1):
@@ -404,9 +419,9 @@ def run_task(task):
             continue
         if wrule is not None or D < 0:
             continue  # not usable as a polynomial 1-D base
-        words = WORDS2 if ndim == 2 else words3
+        words = cfg['w2'] if ndim == 2 else cfg['w3']
         check_mirror_structure(acc, spec, s0, sname, variant, words, ndim)
-        boxes = (SQ2 if sym else BOX2) if ndim == 2 else (SQ3 if sym else BOX3)
+        boxes = (cfg['sq2'] if sym else cfg['b2']) if ndim == 2 else (cfg['sq3'] if sym else cfg['b3'])
         for word in words:
             try:
                 s = apply_word(s0, word)
@@ -570,13 +585,13 @@ def log_convergence(ctx):
 # ---- driver ----------------------------------------------------------------------------------------------------------
 def run(ctx):
     specs = base_specs()
-    words3 = QUICK_WORDS3 if ctx.tier == 'quick' else WORDS3
+    cfg = CFG[ctx.tier]
     tasks = []
     for spec in specs:
         for g in GROUPS:
             if g != '1d' and (spec[4] is not None or spec[3] < 0):
                 continue
-            tasks.append((spec, g, words3))
+            tasks.append((spec, g, ctx.tier))
     # heavy tasks first for load balance
     def weight(t):
         return -(t[0][3] + 2) ** 3 * {'1d': 0.01, '2d': 0.1, '3dprod': 1, '3did': 6, '3didsym': 3, '3dtouch': 3}[t[1]]
@@ -587,7 +602,10 @@ def run(ctx):
     fam_cases = {}
     unavailable = {}
     configs = nontrivial = 0
+    run_samples = {}
     for (spec, g, _), r in zip(tasks, results):
+        for sm in r.get('samples', []):
+            run_samples.setdefault(sm['scheme'] + sm['variant'], sm)
         if 'unavailable' in r:
             unavailable[spec[0]] = r['unavailable']
             continue
@@ -619,10 +637,9 @@ def run(ctx):
         ctx.violation(key, '[{} of {} bases fail this class] {}'.format(len(lst), len(specs), what), replay)
 
     lg = log_convergence(ctx)
-    samples = [{'base': 'log_quadrature_scheme(4, 4)', 'scheme': 'DuffyScheme2D symmetric=False', 'word': 'yx',
-                'box': list(BOX2[1]), 'monomials': 'all x^i y^j, i+j <= 3'},
-               {'base': 'gauss_quadrature_scheme(23)', 'scheme': 'DuffySchemeIdentical3D symmetric_xy=False', 'word': 'zz',
-                'box': list(BOX3[4]), 'monomials': 'all x^i y^j z^k, i+j+k <= 21'}] + lg['samples']
+    samples = list(run_samples.values())[:8] + lg['samples']
+    if not samples:
+        raise common.HarnessError('no sample case recorded')
     cov = {
         'evaluations': int(sum(counts.values()) + lg['evaluations']),
         'distinct_nontrivial': int(nontrivial + lg['sequences']),
@@ -631,20 +648,20 @@ def run(ctx):
                 '(both), DuffySchemeTouch3D; mirror words = {} (2-D) / {} (3-D); boxes = {} (1-D) {} (2-D) {} (3-D), symmetric '
                 'variants on boxes square in (x,y); every monomial of total degree <= stated degree. distinct_nontrivial counts '
                 'distinct (base, scheme, variant, word, box) configurations whose monomial set reaches degree >= 1, plus the '
-                'log-convergence sequences; evaluations counts single comparisons'.format(WORDS2, words3, len(I1D), len(BOX2),
-                                                                                          len(BOX3)),
+                'log-convergence sequences; evaluations counts single comparisons'.format(cfg['w2'], cfg['w3'], len(cfg['i1']), len(cfg['b2']),
+                                                                                          len(cfg['b3'])),
         'samples': samples, 'exhaustive': True,
         'bases': len(specs), 'bases_unavailable': unavailable, 'tasks': len(tasks), 'configurations': configs,
         'comparisons_per_clause': counts, 'cases_per_family': fam_cases, 'largest_relative_error': maxerr,
         'log_convergence': {k: v for k, v in lg.items() if k != 'samples'},
-        'mirror_words_3d': words3,
+        'mirror_words_3d': cfg['w3'], 'mirror_words_2d': cfg['w2'],
     }
     return ctx.finish('exploration', cov, [
         'tolerance 1e-12 relative to the integral of |monomial| over the box (equals |exact| unless the box straddles 0)',
         'double mirror: points within 2^-53 absolute (rounding of 1-(1-p)), weights bitwise',
         'log-convergence: non-increasing error unless already <= 1e-12 relative; order list log_quadrature_scheme(n,n), n=2..12',
         'weighted Gauss families only through the 1-D map and mirror (they do not integrate plain polynomials)',
-        'quick tier: 9 of the 14 three-dimensional mirror words; thorough: all words of length <= 2 and xyz'])
+        'mirror words: all of length <= 2 and xyz (quick), all of length <= 3 (thorough); thorough adds three boxes / two intervals'])
 
 
 def replay(ctx, data):
